@@ -356,6 +356,11 @@ def fixed_table():
             for le in (True, False):
                 t.append(("ByteSwapped(BytesInteger) chain", "n=%d,signed=%s,le=%s" % (n, sg, le),
                           ["ByteSwapped(BytesInteger(%d, signed=%s, swapped=%s))" % (n, sg, le), "BytesInteger(%d, signed=%s, swapped=%s)" % (n, sg, not le)], {}))
+    # the name operator with a bytes name (a legacy spelling the library accepts) against the Renamed constructor
+    for nm in ("b'num'", "'num'", "u'num'"):
+        t.append(("name / x <--> Renamed(x, newname=name)", "in-struct,%s" % nm, ["Struct(%s / Byte, 'w' / Byte)" % nm, "Struct(Renamed(Byte, newname=%s), 'w' / Byte)" % nm], {}))
+        t.append(("name / x <--> Renamed(x, newname=name)", "focused,%s" % nm, ["FocusedSeq(%s, %s / Int16ub, 'w' / Byte)" % (nm, nm), "FocusedSeq(%s, Renamed(Int16ub, newname=%s), 'w' / Byte)" % (nm, nm)], {}))
+        t.append(("name / x <--> Renamed(x, newname=name)", "union,%s" % nm, ["Union(0, %s / Int16ub, 'w' / Byte)" % nm, "Union(0, Renamed(Int16ub, newname=%s), 'w' / Byte)" % nm], {}))
     # If as a member of a structure: the wrapper is anonymous and does not build from nothing unless its branch does
     for cond in ("True", "False", "this._params.c", "this._params.c > 1"):
         t.append(("If <--> IfThenElse as a member", "named-branch,%s" % cond, ["Struct(If(%s, 'a' / Byte), 'w' / Byte)" % cond, "Struct(IfThenElse(%s, 'a' / Byte, Pass), 'w' / Byte)" % cond], {}))
